@@ -142,7 +142,8 @@ func (g *grpcHandler) NewConn(
 	requestCompression, responseCompression, failed := negotiateCompression(
 		g.CompressionPools,
 		request.Header.Get(grpcHeaderCompression),
-		request.Header.Get(grpcHeaderAcceptCompression),
+		// Several field lines mean the same as one line joined by commas.
+		strings.Join(request.Header.Values(grpcHeaderAcceptCompression), ","),
 	)
 
 	// Write any remaining headers here:
